@@ -192,6 +192,15 @@ def shapes(tier, seed):
         d = dict(pools={"X": 3, "U": nu}, vars={"x": "X", "u": "U"}, select=[["v", "x"]], c=c, universal=universal)
         d.update(kw)
         out.append(d)
+    # predicates inside the quantified condition: two values, a Predicate-like function with a non-bool result
+    preds = [["pv2", ["a", "u", "a"], ["a", "x", "a"]], ["pgap", ["a", "x", "b"], ["a", "u", "b"]], ["pgap", ["a", "u", "a"], ["lit", 0]]]
+    for c in preds:
+        for nu in (2, 3):
+            add(c, nu)
+        add(["not", c], 2)
+        add(["and", c, both[0]], 2, pools={"X": 2, "U": 2})
+        add(["or", only_x[0], c], 2, pools={"X": 2, "U": 2})
+        add(c, 2, d=extra[0], position="and_right")
     singles = both + only_u + only_x
     for c in singles:
         for nu in (1, 2, 3):
